@@ -61,13 +61,13 @@ def jobs(tier):
     import itertools
     nmax = 2
     quick_combos = [(), ("CA", "CAB"), ("CAB", "CA"), ("CB", "CB")]
-    RL = ["src/Alloc.c", "src/Tuple.c", "src/Num.c", "src/String.c", "src/Iter.c", "src/Exception.c", "stubs/throw.c"]
+    RL = ["src/Alloc.c", "src/Tuple.c", "src/Num.c", "src/String.c", "src/Iter.c", "src/Exception.c", "src/Cmp.c", "stubs/throw.c"]
     for n in range(0, nmax + 1):
         for combo in itertools.product(["CA", "CAB", "CB"], repeat=n):
             if tier != "thorough" and combo not in quick_combos:
                 continue
             defs = ["NINST=%d" % n] + ["K%d=%s" % (i, k) for i, k in enumerate(combo)]
             J.append(Job("C08.runtime.%d.%s" % (n, "_".join(combo) or "none"), "C08", "K3", "Type/runtime.c", "h_runtime", FUNCS + ["Type_New", "Type_Alloc", "Type_Builtin_Name", "Type_Builtin_Size", "size"],
-                         link=RL, defines=defs, replace_calls=["exception_throw:cv_throw"], unwind=12, group="C08.runtime.k3", also=["C19"],
+                         link=RL, defines=defs, replace_calls=["exception_throw:cv_throw"], unwind=12, group="C08.runtime.k3", also=["C19", "C12"], replay="C08_lookup.c",
                          bound="run-time types with <= %d instances, class names from {A, AB, B, BA}" % nmax, case="instances of classes %s" % (list(combo),), timeout=300))
     return J
